@@ -1,17 +1,19 @@
 #!/usr/bin/env python3
-"""mkbaseline.py: freeze the table of function paths of the pinned tree (/repo HEAD, all configurations) into rules/baseline_fns.json.
+"""mkbaseline.py: freeze the tables of function paths and ADT paths of the pinned tree (/repo HEAD, all configurations) into rules/baseline_fns.json.
 Run only when the machinery is re-pinned to a new tree; the table is what `pvrules/inline.py` uses to tell a new helper from an anchor."""
 import json, os, subprocess, sys
 HERE = os.path.dirname(os.path.dirname(os.path.abspath(__file__)))
 sys.path.insert(0, os.path.join(HERE, "rules"))
 from pvrules import extract
 fns = set()
+adts = set()
 for c in extract.CONFIGS:
     raw, info = extract.extract_repo(c)
     fns |= {b["path"] for b in raw["bodies"]}
+    adts |= {a["path"] for a in raw.get("adts", [])}
 head = subprocess.run(["git", "-C", "/repo", "rev-parse", "HEAD"], capture_output=True, text=True).stdout.strip()
 dirty = subprocess.run(["git", "-C", "/repo", "status", "--porcelain"], capture_output=True, text=True).stdout.strip()
 if dirty:
     print("refusing: /repo has uncommitted changes"); sys.exit(1)
-json.dump({"pinned_commit": head, "functions": sorted(fns)}, open(os.path.join(HERE, "rules", "baseline_fns.json"), "w"), indent=0)
+json.dump({"pinned_commit": head, "functions": sorted(fns), "adts": sorted(adts)}, open(os.path.join(HERE, "rules", "baseline_fns.json"), "w"), indent=0)
 print("baseline: %d functions at %s" % (len(fns), head))
